@@ -1,6 +1,9 @@
 package main
 
 import (
+	"fmt"
+	"strings"
+
 	"golang.org/x/tools/go/ssa"
 )
 
@@ -68,7 +71,54 @@ func c23(c *Ctx) {
 	}
 	c.Guard("R2-progress", df, RetNot{Idx: 1, Globs: []string{"0"}}, "len(data) >= (*) || *.GetFrameType(*) == "+ping+" || *.GetFrameType(*) == "+pong)
 	c.Guard("R2-progress", df, Ret{Idx: 1, Glob: "1"}, "*.GetFrameType(*) == "+ping+" || *.GetFrameType(*) == "+pong)
-	c.Guard("R2-progress", df, CallTo{"dyn:*"}, "len(data) >= (*)", "framer.RemainingLength <= 1048576")
+	c.Guard("R2-progress", df, CallTo{"dyn:*"}, "len(data) >= (*)")
+	// ‹header› = the fixed header handed to the per-frame decoder (argument 0 of the dynamic call),
+	// resolved from the call, not from the name of the local: it is the header decodeFramer produced
+	// from the caller's data, and its RemainingLength is bounded before any per-frame decoder runs.
+	if df != nil {
+		header, mixed := "", false
+		var calls []ssa.Instruction
+		for _, in := range instrsMatching(df, CallTo{"dyn:*"}) {
+			args := callArgs(in.(ssa.CallInstruction).Common())
+			if len(args) == 0 {
+				mixed = true
+				continue
+			}
+			calls = append(calls, in)
+			if p := Path(args[0]); header != "" && header != p {
+				mixed = true
+			} else {
+				header = p
+			}
+		}
+		const decoded = "pkg/protocol/codec.WKProto.decodeFramer(l, data)#0"
+		construct := c.P.Name(df) + "#decoded-header"
+		switch {
+		case len(calls) == 0: // reported as vacuous by the Guard above
+		case mixed:
+			c.add("shape", "R2-progress", construct, Violated, c.P.InstrPos(calls[0]), "per-frame decoders are not all handed one fixed header as first argument")
+		default:
+			var bad []string
+			if header != decoded {
+				n := 0
+				for _, in := range instrsMatching(df, StoreTo{Addr: header}) {
+					n++
+					if st, ok := in.(*ssa.Store); !ok || Path(st.Val) != decoded {
+						bad = append(bad, c.P.InstrPos(in))
+					}
+				}
+				if n == 0 {
+					bad = append(bad, "never assigned")
+				}
+			}
+			if len(bad) > 0 {
+				c.add("shape", "R2-progress", construct, Violated, c.P.InstrPos(calls[0]), fmt.Sprintf("the header handed to the per-frame decoder (%s) is not exactly %s: %s", header, decoded, strings.Join(bad, ", ")))
+			} else {
+				c.add("shape", "R2-progress", construct, Held, c.P.InstrPos(calls[0]), fmt.Sprintf("%d per-frame decode call(s), each handed %s = %s", len(calls), header, decoded))
+			}
+			c23GuardRef(c, "R2-progress", df, CallTo{"dyn:*"}, map[string]string{"header": header}, "‹header›.RemainingLength <= 1048576")
+		}
+	}
 	ad := c.Fn("pkg/gateway/protocol/wkproto.Adapter.Decode")
 	c.Guard("R2-progress", ad, CallTo{"append(*"}, "*DecodeFrame(*)#2 == nil", "*DecodeFrame(*)#0 != nil", "*DecodeFrame(*)#1 != 0")
 	c.GuardOpt("R2-progress", ad, CallTo{"*DecodeFrame*"}, GuardOpts{}, "* < len(in)")
@@ -79,6 +129,45 @@ func c23(c *Ctx) {
 
 	// R3: SEND payload detached before the frame is appended to the result
 	c.Guard("R3-detach", ad, CallTo{"append(*"}, "after: pkg/gateway/protocol/wkproto.detachSendPayload || *.(SendPacket)#1 == false")
+}
+
+// c23GuardRef is c.Guard for guards that mention a value the caller resolved structurally (a call
+// argument: SSA identity). A guard names such a value ‹name›; for matching the placeholder is replaced by
+// refs[name] (the value's rendering in fn) while the obligation key keeps the placeholder, so the rule
+// does not depend on the identifier of a local variable.
+func c23GuardRef(c *Ctx, rule string, fn *ssa.Function, eff Effect, refs map[string]string, guards ...string) {
+	if fn == nil {
+		return
+	}
+	name := c.P.Name(fn)
+	c.FuncsAnalysed[name] = true
+	effs := instrsMatching(fn, eff)
+	if len(effs) == 0 {
+		c.add("guard", rule, name+"#"+eff.String(), Undecided, c.P.Pos(fn.Pos()), "no instruction matches the effect (vacuous)")
+		return
+	}
+	for _, gs := range guards {
+		construct := name + "#" + eff.String() + "⇐" + gs
+		real := gs
+		for k, v := range refs {
+			real = strings.ReplaceAll(real, "‹"+k+"›", v)
+		}
+		g := parseGuard(real)
+		removed, descr := guardEdges(fn, g)
+		c.EdgesRemoved += len(removed)
+		limit := reachUnguarded(fn, removed, g.afters)
+		var bad []string
+		for _, e := range effs {
+			if lim, ok := limit[e.Block()]; ok && indexIn(e.Block(), e) < lim {
+				bad = append(bad, c.P.InstrPos(e))
+			}
+		}
+		if len(bad) > 0 {
+			c.add("guard", rule, construct, Violated, bad[0], fmt.Sprintf("effect %q in %s reachable without guard %q at %s", eff.String(), name, real, strings.Join(bad, ", ")))
+			continue
+		}
+		c.add("guard", rule, construct, Held, c.P.InstrPos(effs[0]), fmt.Sprintf("%d effect site(s); %d guard edge(s) removed [%s]; no unguarded path from entry (back-references %v)", len(effs), len(removed), strings.Join(dedup(descr), "; "), refs))
+	}
 }
 
 // c23Cursor: every store to Decoder.offset is offset+K dominated by (offset+K) <= len(p), or the BinaryAll jump to the end.
